@@ -2,6 +2,27 @@
 
 package main
 
-import "verifharness/c10"
+import (
+	"math/rand"
 
-func init() { register("C10", "exploration", c10.Run) }
+	"verifharness/c10"
+	"verifharness/gen/samples"
+)
+
+func init() {
+	register("C10", "exploration", c10.Run)
+	// corrupt-but-plausible packages: a valid document whose main part is damaged
+	for _, f := range []string{"docx", "odt", "xlsx", "pptx", "epub"} {
+		f := f
+		c10.ExtraBadFiles = append(c10.ExtraBadFiles, func(r *rand.Rand) ([]byte, string) {
+			ms := samples.Unzip(samples.Make(f, r).Data)
+			for i := range ms {
+				switch ms[i].Name {
+				case "word/document.xml", "content.xml", "xl/workbook.xml", "ppt/presentation.xml", "META-INF/container.xml":
+					ms[i].Data = ms[i].Data[:len(ms[i].Data)/2] // truncated XML
+				}
+			}
+			return samples.Rezip(ms), f
+		})
+	}
+}
